@@ -107,7 +107,7 @@ class OpenCtx(BaseCtx):
                     self.stats["gen:second_open_in_openconfirm"] += 1
                     first = self.gen_last_open
                     old_hold = struct.unpack("!H", first[22:24])[0]
-                    new_hold = rng.pick([h for h in (0, 3, 30, 90, 180, 240) if h != old_hold])
+                    new_hold = rng.pick([h for h in (0, 1, 2, 3, 30, 90, 180, 240) if h != old_hold])
                     # (same capabilities, AS and identifier: only the hold time differs)
                     return ["send", k, (first[:22] + struct.pack("!H", new_hold) + first[24:]).hex(), []]
                 if rng.chance(0.2):
@@ -271,6 +271,18 @@ class OpenCtx(BaseCtx):
                         continue
                     if f.type == rp.OPEN and self.cur is not None and not self.cur.get("peer_open_seen"):
                         self.on_peer_open(f, toks, names)
+                    elif f.type == rp.OPEN and self.cur is not None and self.cur.get("accepted"):
+                        # a further OPEN on the same connection: whether an OPEN is acceptable depends on the
+                        # OPEN and the configuration, not on its being the first one
+                        try:
+                            h2 = rp.decode_open(f.body).hold
+                        except ValueError:
+                            h2 = None
+                        self.stats["further_open_on_connection"] += 1
+                        if h2 in (1, 2) and "lose" not in names:
+                            raise Violation("C05", "accept-rule", "unacceptable-further-open/got:%s" % (",".join(names) or "nothing"),
+                                            "a second OPEN with the unacceptable hold time %s (after an accepted one) was not refused: "
+                                            "agent did %s, state %s" % (h2, names, w.state()))
                     elif f.type == rp.UPDATE and self.cur is not None and self.cur.get("accepted"):
                         self.on_peer_update(f, handler)
         # ---- keepalive interval reflects min(configured, proposed)
